@@ -54,7 +54,8 @@ def run(module, cfg_text, extra_modules=None, workers=None, env=None, timeout=36
         with open(os.path.join(d, module + '.cfg'), 'w') as fh:
             fh.write(cfg_text)
         workers = workers or min(16, os.cpu_count() or 4)
-        cmd = ['java', '-XX:+UseParallelGC', '-Xmx' + heap, '-Xss256m', '-cp', JAR + ':' + DEPS, 'tlc2.TLC', '-workers', str(workers),
+        os.mkdir(os.path.join(d, 'jtmp'))        # SANY unpacks the standard modules into java.io.tmpdir and leaves them there
+        cmd = ['java', '-XX:+UseParallelGC', '-Xmx' + heap, '-Xss256m', '-Djava.io.tmpdir=' + os.path.join(d, 'jtmp'), '-cp', JAR + ':' + DEPS, 'tlc2.TLC', '-workers', str(workers),
                '-metadir', os.path.join(d, 'meta'), '-noGenerateSpecTE', '-config', module + '.cfg']
         if simulate:
             cmd += ['-simulate', simulate]
